@@ -455,7 +455,7 @@ def r97(db, ctx):
         mi = m(('call~', 'Symbol::as_index', (('elem', ('call~', 'Alphabet::symbols', ()), '$L'),)), I)
         if mi is not None:
             cov = True          # every symbol of the alphabet (R5.1: symbols() enumerates all K symbols, as_index is a bijection onto 0..K)
-        elif I[0] == 'elem' and I[1][0] == 'agg' and len(I[1][2]) == 2 and norm(I[1][2][0]) == ('k', 0) and common.is_usize_const(I[1][2][1]):
+        elif I[0] == 'elem' and I[1][0] == 'agg' and len(I[1][2]) == 2 and norm(I[1][2][0]) == ('k', 0) and common.is_usize_const(I[1][2][1], 'K'):
             cov = True
         if not cov:
             probs.append(f'the index {X.show(I, 80)} does not range over all K symbol indices (symbols() or 0..K::USIZE): the skipped symbols keep frequency 0 '
